@@ -399,6 +399,19 @@ where
         #[cfg(feature = "log")]
         log::debug!("{}", control);
         match control {
+            ConnectionControl::Close(_)
+                if matches!(
+                    self.connection.local_state(),
+                    ConnectionState::CloseSent
+                        | ConnectionState::ClosePipe
+                        | ConnectionState::OpenClosePipe
+                        | ConnectionState::Discarding
+                        | ConnectionState::End
+                ) =>
+            {
+                // The close frame has already been sent (an earlier `try_close`, or the
+                // handle being dropped after one): a connection sends at most one.
+            }
             ConnectionControl::Close(error) => {
                 // Record a locally initiated close with an error before the
                 // channels close, so sessions and links observe the local
